@@ -17,10 +17,22 @@ def check_obligation(o, timeout_ms=10000, seed=0, linear_only=False):
         # products of two variables are left uninterpreted: every refutation found this way is also a
         # refutation in real arithmetic (sound for `unsat`); `sat` answers are not used
         s.set("arith.nl", False)
-    for a in o.assumes:
-        s.add(a)
+    import os as _os
+    core_dbg = _os.environ.get("PYVC_CORE") and _os.environ["PYVC_CORE"] in getattr(o, "oid", "")
+    if core_dbg:
+        s.set("unsat_core", True)
+        for i_, a in enumerate(o.assumes):
+            s.assert_and_track(a, "f%d" % i_)
+    else:
+        for a in o.assumes:
+            s.add(a)
     s.add(z3.Not(o.goal))
     r = s.check()
+    if core_dbg and r == z3.unsat:
+        core = [str(c) for c in s.unsat_core()]
+        print("CORE of %s (%d of %d facts):" % (o.oid, len(core), len(o.assumes)))
+        for c in core:
+            print("   ", c, str(o.assumes[int(c[1:])]).replace("\n", " ")[:600])
     dt = time.time() - t0
     res = {"status": str(r), "time": dt, "solver": "z3-" + z3.get_version_string(), "model": None}
     if r == z3.sat:
